@@ -187,6 +187,52 @@ fn main() {
     sweep::<i64>(&run, "i64", &z4, &[(3, 3)], &two_flags);
     let zwide: Vec<Z> = [0, 1, 2, 3, 4, 6, -2, -6, 12].map(z).to_vec();
     sweep::<i64>(&run, "i64", &zwide, &[(2, 2)], &flags);
+    // ---- diagonal inputs: the divisibility-chain normalisation on its own ------------------------------------
+    {
+        let dal: Vec<Z> = [0, 1, 2, 3, 4, 6, 8, 9, 12, 18].map(z).to_vec();
+        let mut diags: Vec<(RMat<Z>, String)> = vec![];
+        for (m, n, k) in [(3usize, 3usize, 3usize), (3, 4, 3), (4, 4, 4)] {
+            let al: &[Z] = if k == 4 { &dal[1..7] } else { &dal };
+            for idx in 0..al.len().pow(k as u32) {
+                let mut x = idx;
+                let mut a = RMat::<Z>::zero(m, n);
+                let mut code = String::new();
+                for i in 0..k {
+                    a.set(i, i, al[x % al.len()].clone());
+                    code.push_str(&format!("{},", al[x % al.len()]));
+                    x /= al.len();
+                }
+                diags.push((a, format!("diag({code})")));
+            }
+        }
+        run.add("inputs", diags.len() as u64);
+        run.par_for(diags.len(), |i| {
+            let (a, code) = &diags[i];
+            if !a.is_zero() {
+                run.add("nonzero_inputs", 1);
+            }
+            check_one::<i64>(&run, "i64/diag", a, code, &two_flags);
+            check_one::<BigInt>(&run, "BigInt/diag", a, code, &[[true; 4]]);
+        });
+        let gd: Vec<Quad<-1>> = [(0, 0), (1, 0), (1, 1), (2, 0), (1, 2), (3, 0), (2, 2), (3, 3), (5, 0)].map(|(a, b)| Quad::of(a, b)).to_vec();
+        let mut gdiags: Vec<(RMat<Quad<-1>>, String)> = vec![];
+        for idx in 0..gd.len().pow(3) {
+            let mut x = idx;
+            let mut a = RMat::<Quad<-1>>::zero(3, 3);
+            let mut code = String::new();
+            for i in 0..3 {
+                a.set(i, i, gd[x % gd.len()].clone());
+                code.push_str(&format!("{:?},", gd[x % gd.len()]));
+                x /= gd.len();
+            }
+            gdiags.push((a, format!("diag({code})")));
+        }
+        run.add("inputs", gdiags.len() as u64);
+        run.par_for(gdiags.len(), |i| {
+            let (a, code) = &gdiags[i];
+            check_one::<GaussInt<i64>>(&run, "GaussInt<i64>/diag", a, code, &two_flags);
+        });
+    }
     // ---- finite fields ----------------------------------------------------------------------------------
     sweep::<FF2>(&run, "FF2", &Fp::<2>::all(), &[(1, 1), (2, 2), (2, 3), (3, 2), (3, 3)], &flags);
     sweep::<FF<3>>(&run, "FF<3>", &Fp::<3>::all(), &[(1, 1), (2, 2), (2, 3), (3, 2)], &flags);
